@@ -8,6 +8,7 @@ mkdir -p .work evidence replays
 python3 tools/asmx/asmx.py /repo/divmod_amd64.s lean/TensorModel/Generated/DivmodAsm.lean
 (cd tools/gol && go run . -repo /repo -out ../../lean/TensorModel/Generated/Core.lean)
 (cd tools/gluex && go run . -repo /repo -out ../../lean/TensorModel/Generated/Glue.lean)
+(cd tools/gox && go run . -repo /repo -out ../../lean/TensorModel/Generated)
 (cd lean && lake build TensorModel tmdriver $(ls TensorModel/Props/*.lean | sed 's#TensorModel/Props/\(.*\)\.lean#TensorModel.Props.\1#'))
 (cd tools/harness && cp /repo/go.sum . && go build -tags verif -o ../../.work/harness-setup . && rm -f ../../.work/harness-setup)
 echo setup done
